@@ -43,6 +43,15 @@ def wrong_name(tape, names, avoid_kinds=()):
         pool += [(k, x) for x in v]
     pool += [('unknown', 'Nope'), ('unknown', 'nope_x'), ('builtin', 'String'), ('builtin', 'Void'),
              ('builtin', 'List'), ('keyword', 'union'), ('builtin', 'Int32')]
+    # qualified forms: the namespace itself, an unknown namespace, a type used as a namespace
+    own = [x for k in ('struct', 'union', 'alias', 'anntype', 'ann') for x in names.get(k, [])]
+    me = names.get('ns', ['x'])[-1]
+    if own:
+        x = own[tape.draw(len(own))]
+        pool += [('self-qualified', '%s.%s' % (me, x)), ('type-as-namespace', '%s.%s' % (x, x)),
+                 ('unknown-namespace', 'nope_ns.%s' % x)]
+        for other in names.get('ns', [])[:-1]:
+            pool.append(('wrong-namespace', '%s.%s' % (other, x)))
     return pool[tape.draw(len(pool))]
 
 
@@ -60,8 +69,7 @@ def confuse(tape, model):
                         sites.append(('field-default', n, d, f))
                     if f.anns:
                         sites.append(('field-ann', n, d, f))
-                if d.parent:
-                    sites.append(('struct-parent', n, d, None))
+                sites.append(('struct-parent', n, d, None))     # also gives a parent to a root struct
                 if d.subtypes:
                     sites.append(('subtype-entry', n, d, None))
                 for e in d.examples:
@@ -70,8 +78,7 @@ def confuse(tape, model):
                 for g in d.tags:
                     if g.type is not None:
                         sites.append(('tag-type', n, d, g))
-                if d.parent:
-                    sites.append(('union-parent', n, d, None))
+                sites.append(('union-parent', n, d, None))      # also gives a parent to a root union
                 for e in d.examples:
                     sites.append(('example', n, d, e))
             elif isinstance(d, Alias):
